@@ -182,6 +182,7 @@ func runQuotaGuard(c *core.Ctx) {
 	// reject exactly on the false verdict and forward exactly on the true one
 	var site *ssa.Call
 	var helperRej, helperFwd *ssa.Return
+	var helperFwdMore []*ssa.Return
 	if msg == "" {
 		var host *ssa.Function
 		for _, fn := range P.ModFuncs {
@@ -202,7 +203,32 @@ func runQuotaGuard(c *core.Ctx) {
 				host, site, msg = fn, cs[0], hm
 			}
 		}
-		if host == nil || req.Signature.Results().Len() != 1 {
+		// the verdict: the helper's only result, or — of several, `(ok, changed, active)` — the first bool
+		// one that the host branches on
+		vi := -1
+		if host != nil {
+			res := req.Signature.Results()
+			for i := 0; i < res.Len() && vi < 0; i++ {
+				if bt, isB := res.At(i).Type().Underlying().(*types.Basic); !isB || bt.Kind() != types.Bool {
+					continue
+				}
+				if res.Len() == 1 {
+					vi = 0
+					break
+				}
+				an.Instrs(host, func(in ssa.Instruction) {
+					ifi, isIf := in.(*ssa.If)
+					if !isIf || vi >= 0 {
+						return
+					}
+					v, _ := stripNot(ifi.Cond, true)
+					if ex, isEx := v.(*ssa.Extract); isEx && ex.Tuple == ssa.Value(site) && ex.Index == i {
+						vi = i
+					}
+				})
+			}
+		}
+		if host == nil || vi < 0 {
 			c.Bad(nil, fname(c, req), "reject-set", P.Pos(req.Pos()), "the subscription set is updated outside a REQ handler and not by a verdict helper called from one")
 			return
 		}
@@ -212,16 +238,27 @@ func runQuotaGuard(c *core.Ctx) {
 				id = "p:" + req.Params[i].Name()
 			}
 		}
+		unread := false
 		for _, rb := range an.ReturnBlocks(req) {
 			r := an.LastInstr(rb).(*ssa.Return)
-			switch rv := an.ReturnValues(r)[0]; {
+			switch rv := an.ReturnValues(r)[vi]; {
 			case isConstBool(rv, false) && helperRej == nil:
 				helperRej = r
-			case isConstBool(rv, true) && helperFwd == nil:
+			case isConstBool(rv, true) && (helperFwd == nil || mu.Block() == rb || mu.Block().Dominates(rb)):
+				// (of several accepting ways out — "already open" and "room left" — the one that enters the id
+				// is the forwarding return the set logic is read at; the others must have found the id present)
+				if helperFwd != nil {
+					helperFwdMore = append(helperFwdMore, helperFwd)
+				}
 				helperFwd = r
+			case isConstBool(rv, true):
+				helperFwdMore = append(helperFwdMore, r)
 			default:
-				helperRej, helperFwd = nil, nil
+				unread = true
 			}
+		}
+		if unread {
+			helperRej, helperFwd = nil, nil
 		}
 		okHost := helperRej != nil && helperFwd != nil
 		nRej, nFwd := 0, 0
@@ -239,6 +276,9 @@ func runQuotaGuard(c *core.Ctx) {
 			verdict, guarded := false, false
 			for _, g := range an.Guards(host, r.ret.Block()) {
 				if g.V == ssa.Value(site) {
+					verdict, guarded = g.True, true
+				}
+				if ex, isEx := g.V.(*ssa.Extract); isEx && ex.Tuple == ssa.Value(site) && ex.Index == vi {
 					verdict, guarded = g.True, true
 				}
 			}
@@ -354,6 +394,30 @@ func runQuotaGuard(c *core.Ctx) {
 		insertOnlyWhenForwarded := !(mu.Block() == rej.Block() || mu.Block().Dominates(rej.Block()))
 		if insertOnlyWhenForwarded && !(mu.Block() == fwd.Block() || mu.Block().Dominates(fwd.Block())) {
 			fps, okp := an.PathsTo(req, fwd.Block(), 1024)
+			if !okp {
+				insertOnlyWhenForwarded = false
+			}
+			for _, fp := range fps {
+				if !an.Feasible(fp) || fp.Contains(mu.Block()) {
+					continue
+				}
+				already := false
+				for _, cd := range fp.Conds() {
+					if isMemberCond(an.NormCond(cd), true) {
+						already = true
+					}
+				}
+				if !already {
+					insertOnlyWhenForwarded = false
+				}
+			}
+		}
+		// the other accepting ways out of a verdict helper: only for an id found in the set
+		for _, f2 := range helperFwdMore {
+			if site == nil {
+				break
+			}
+			fps, okp := an.PathsTo(req, f2.Block(), 1024)
 			if !okp {
 				insertOnlyWhenForwarded = false
 			}
